@@ -132,7 +132,7 @@ func nodeLess(o graph.NodeOrder, a, b *graph.Node) bool {
 	return ns[0] == a
 }
 
-func guard(f func() Term) (t Term) {
+func c08Guard(f func() Term) (t Term) {
 	defer func() {
 		if e := recover(); e != nil {
 			t = L(S("panic"), S(fmt.Sprint(e)))
@@ -142,7 +142,7 @@ func guard(f func() Term) (t Term) {
 }
 
 func matrix(k int, less func(i, j int) bool) Term {
-	return guard(func() Term {
+	return c08Guard(func() Term {
 		var m []Term
 		for i := 0; i < k; i++ {
 			for j := 0; j < k; j++ {
@@ -247,7 +247,7 @@ func c08Cmp(c *Ctx) {
 		}
 		if r.P(1, 3) {
 			cp := append(graph.Nodes{}, ns...)
-			obs := guard(func() Term {
+			obs := c08Guard(func() Term {
 				cp.Sort(ord.o)
 				var ids []Term
 				for _, x := range cp {
@@ -290,7 +290,7 @@ func c08Cmp(c *Ctx) {
 			for _, e := range es {
 				em[&graph.Node{}] = e
 			}
-			obs := guard(func() Term {
+			obs := c08Guard(func() Term {
 				var ids []Term
 				for _, x := range em.Sort() {
 					for i, y := range es {
@@ -321,7 +321,7 @@ func c08Cmp(c *Ctx) {
 		c.Case("cmp-tag", L(S("cmp"), S(name), L(els...)), obs, true, "cmp:"+name)
 		if r.P(1, 3) {
 			cp := append([]*graph.Tag{}, ts...)
-			obs := guard(func() Term {
+			obs := c08Guard(func() Term {
 				var ids []Term
 				for _, x := range graph.SortTags(cp, flat) {
 					for i, y := range ts {
